@@ -371,8 +371,7 @@ Proof.
   destruct (ev (vmodel b)) as [b'|] eqn:Eb; [|discriminate].
   destruct (all_some_v (map ev (map vmodel l))) as [l'|] eqn:El; [|discriminate].
   injection H as -> -> ->.
-  cbn [map pairs_of fst snd]. rewrite (IH l El).
-  cbn [all_some_v eval map]. rewrite Ea, Eb. reflexivity.
+  cbn [map pairs_of fst snd all_some_v eval]. rewrite Ea, Eb. cbn [all_some_v]. rewrite (IH l El). reflexivity.
 Qed.
 
 Lemma no_kw_models vs : forallb (fun v => negb (is_vkw v)) vs = true -> existsb is_mkw (map vmodel vs) = false.
